@@ -328,4 +328,154 @@ theorem slashing_rel (hcode : SlashCodeOk) (s : State) (h : Nat) :
     · exact refreshPower_rel s s3 h r3
     · exact r3
 
+/-! ## `GetCurrentOracleSet` arithmetic -/
+
+theorem le_sum_of_mem {α : Type} (f : α → Nat) (l : List α) (a : α) (h : a ∈ l) : f a ≤ (l.map f).sum := by
+  induction l with
+  | nil => simp at h
+  | cons b l ih =>
+    simp only [List.map_cons, List.sum_cons]
+    rcases List.mem_cons.mp h with h | h
+    · subst h; omega
+    · have := ih h; omega
+
+theorem sum_filter_le {α : Type} (f : α → Nat) (p : α → Bool) (l : List α) :
+    ((l.filter p).map f).sum ≤ (l.map f).sum := by
+  induction l with
+  | nil => simp
+  | cons b l ih =>
+    by_cases hb : p b = true
+    · simp only [List.filter_cons, hb, ↓reduceIte, List.map_cons, List.sum_cons]; omega
+    · simp only [List.filter_cons, hb, List.map_cons, List.sum_cons]; simp; omega
+
+/-- the `uint64` arithmetic of `GetCurrentOracleSet` stays in range: the sum of all record powers is below 2^64 -/
+def PowerFits (s : State) : Prop := ((Store.vals s.oracles).map (power s.p)).sum < u64
+
+theorem currentMembers_ok (s : State) (hf : PowerFits s) : ∃ cur, currentMembers s = .ok cur := by
+  unfold currentMembers
+  generalize hps : (((onlineOracles s).map (fun o => (o.ext, power s.p o))).filter (fun m => m.2 > 0)) = ps
+  have hsum : (ps.map (·.2)).sum < u64 := by
+    rw [← hps]
+    have h1 := sum_filter_le (fun m : Nat × Nat => m.2) (fun m => decide (m.2 > 0)) ((onlineOracles s).map (fun o => (o.ext, power s.p o)))
+    have h2 : (((onlineOracles s).map (fun o => (o.ext, power s.p o))).map (fun m : Nat × Nat => m.2)).sum
+        = ((onlineOracles s).map (power s.p)).sum := by
+      simp [List.map_map, Function.comp_def]
+    have h3 := sum_filter_le (power s.p) (fun o => o.online) (Store.vals s.oracles)
+    unfold PowerFits at hf
+    unfold onlineOracles at h1 h2 ⊢
+    omega
+  have hany : ps.any (fun m => decide (m.2 ≥ u64)) = false := by
+    rw [List.any_eq_false]
+    intro m hm
+    have := le_sum_of_mem (fun m : Nat × Nat => m.2) ps m hm
+    simp only [ge_iff_le, decide_eq_true_eq]
+    omega
+  simp only [hany, Bool.false_eq_true, ↓reduceIte]
+  by_cases hemp : ps.isEmpty = true
+  · simp [hemp]
+  · have hne : ps ≠ [] := by simpa using hemp
+    obtain ⟨m, hm⟩ := List.exists_mem_of_ne_nil ps hne
+    have hpos : m.2 > 0 := by
+      rw [← hps] at hm
+      have := (List.mem_filter.mp hm).2
+      simpa using this
+    have hle := le_sum_of_mem (fun m : Nat × Nat => m.2) ps m hm
+    have hmod : (ps.map (·.2)).sum % u64 = (ps.map (·.2)).sum := Nat.mod_eq_of_lt hsum
+    have hnz : ((ps.map (·.2)).sum % u64 == 0) = false := by
+      rw [hmod]; simp; omega
+    simp [hnz]
+
+/-! ## the whole crosschain end-blocker -/
+
+/-- what the whole end-blocker leaves alone (it may add / prune oracle sets and prune their confirms) -/
+structure OuterCore (s t : State) : Prop where
+  p : t.p = s.p
+  bb : t.byBridger = s.byBridger
+  be : t.byExt = s.byExt
+  bc : t.batchConf = s.batchConf
+  cc : t.callConf = s.callConf
+  bt : t.batches = s.batches
+  cl : t.calls = s.calls
+  dl : t.deleg = s.deleg
+  ub : t.ubds = s.ubds
+  rd : t.reds = s.reds
+  db : t.dbal = s.dbal
+  bl : t.bal = s.bal
+  gh : t.gh = s.gh
+  pr : t.proposal = s.proposal
+  bu : t.burned = s.burned
+  hi : t.height = s.height
+  ti : t.time = s.time
+
+theorem OuterCore.refl (s : State) : OuterCore s s := by constructor <;> rfl
+
+theorem OuterCore.trans {a b c : State} (h1 : OuterCore a b) (h2 : OuterCore b c) : OuterCore a c := by
+  constructor
+  · exact h2.p.trans h1.p
+  · exact h2.bb.trans h1.bb
+  · exact h2.be.trans h1.be
+  · exact h2.bc.trans h1.bc
+  · exact h2.cc.trans h1.cc
+  · exact h2.bt.trans h1.bt
+  · exact h2.cl.trans h1.cl
+  · exact h2.dl.trans h1.dl
+  · exact h2.ub.trans h1.ub
+  · exact h2.rd.trans h1.rd
+  · exact h2.db.trans h1.db
+  · exact h2.bl.trans h1.bl
+  · exact h2.gh.trans h1.gh
+  · exact h2.pr.trans h1.pr
+  · exact h2.bu.trans h1.bu
+  · exact h2.hi.trans h1.hi
+  · exact h2.ti.trans h1.ti
+
+theorem SameCore.outer {s t : State} (h : SameCore s t) : OuterCore s t :=
+  ⟨h.p, h.bb, h.be, h.bc, h.cc, h.bt, h.cl, h.dl, h.ub, h.rd, h.db, h.bl, h.gh, h.pr, h.bu, h.hi, h.ti⟩
+
+structure EndRel (s0 : State) (h : Nat) (t : State) : Prop where
+  core : OuterCore s0 t
+  recs : ∃ g : Oracle → Oracle, t.oracles = Store.mapVals g s0.oracles ∧ ∀ o, RecRel s0 h o (g o)
+
+theorem powerFits_of_recs (s0 t : State) (h : Nat) (hp : t.p = s0.p)
+    (hg : ∃ g : Oracle → Oracle, t.oracles = Store.mapVals g s0.oracles ∧ ∀ o, RecRel s0 h o (g o))
+    (hf : PowerFits s0) : PowerFits t := by
+  obtain ⟨g, hg, hrel⟩ := hg
+  unfold PowerFits at hf ⊢
+  rw [hg, vals_mapVals, List.map_map, hp]
+  have : (power s0.p ∘ g) = power s0.p := by
+    funext o; simp [Function.comp, power, (hrel o).2.2.2.1]
+  rw [this]; exact hf
+
+theorem createOracleSetRequest_frame (s : State) (h : Nat) (hf : PowerFits s) :
+    ∃ s', createOracleSetRequest s h = .ok s' ∧ OuterCore s s' ∧ s'.oracles = s.oracles := by
+  obtain ⟨cur, hcur⟩ := currentMembers_ok s hf
+  unfold createOracleSetRequest
+  rw [hcur]
+  simp only
+  by_cases hc : (needOracleSet s h cur && !cur.isEmpty) = true
+  · rw [if_pos hc]; exact ⟨_, rfl, by constructor <;> rfl, rfl⟩
+  · rw [if_neg hc]; exact ⟨_, rfl, OuterCore.refl s, rfl⟩
+
+theorem prune_frame (s : State) (h : Nat) : OuterCore s (pruneOracleSet s h) ∧ (pruneOracleSet s h).oracles = s.oracles := by
+  unfold pruneOracleSet
+  split
+  · exact ⟨OuterCore.refl s, rfl⟩
+  · split
+    · exact ⟨OuterCore.refl s, rfl⟩
+    · exact ⟨by constructor <;> rfl, rfl⟩
+
+/-- the crosschain end-blocker is total (given the code facts and the `uint64` range) and changes records only as
+`RecRel` allows -/
+theorem endBlock_rel (hcode : SlashCodeOk) (s : State) (h : Nat) (hf : PowerFits s) :
+    ∃ s', endBlock s h = .ok s' ∧ EndRel s h s' := by
+  obtain ⟨s1, e1, r1⟩ := slashing_rel hcode s h
+  have hf1 : PowerFits s1 := powerFits_of_recs s s1 h r1.core.p r1.recs hf
+  obtain ⟨s2, e2, c2, o2⟩ := createOracleSetRequest_frame s1 h hf1
+  obtain ⟨c3, o3⟩ := prune_frame s2 h
+  refine ⟨pruneOracleSet s2 h, ?_, ?_⟩
+  · unfold endBlock; rw [e1]; simp only [e2]
+  · refine ⟨OuterCore.trans (OuterCore.trans r1.core.outer c2) c3, ?_⟩
+    obtain ⟨g, hg, hrel⟩ := r1.recs
+    exact ⟨g, by rw [o3, o2, hg], hrel⟩
+
 end FxVerif.Proofs.C13
